@@ -1182,6 +1182,13 @@ func TestConstructionExhaustive(t *testing.T) {
 		vals = append(vals, v)
 	}
 	vals = append(vals, math.MinInt64, math.MinInt32, -1000, 1000, math.MaxInt32, math.MaxInt64)
+	// numbers whose low 8 / 16 / 32 bits look like a valid precision or scale
+	for _, base := range []int64{1 << 8, 1 << 16, 1 << 32, -(1 << 8), -(1 << 32)} {
+		for _, low := range []int64{0, 1, 2, 10, 38, 39} {
+			vals = append(vals, base+low)
+		}
+	}
+	vals = append(vals, 127, 128, 255, 65535, 1<<31, 1<<63-39)
 	i := 0
 	for _, p := range vals {
 		for _, s := range vals {
@@ -1198,7 +1205,7 @@ func TestConstructionExhaustive(t *testing.T) {
 			}
 		}
 	}
-	e.Done("NewDecimal/NewDecimalString: precision x scale over -5..45 and int extremes")
+	e.Done("NewDecimal/NewDecimalString: precision x scale over -5..45, int extremes, and numbers whose low 8/16/32 bits are a valid precision or scale (256+10, 65536+38, ...)")
 }
 
 // ---- precision and scale are exported members that the library itself assigns after
